@@ -54,6 +54,10 @@ def systems(tier):
     for nrewind in (1, 2):
         out.append(dict(types=["BR5"], molecules=[("BR5", 1)], box=[4.0, 4.0, 4.0], grid=GRID,
                         kwargs=dict(nrewind=nrewind, maxiter=2, start=["BR5-S#4"]), F=2 if tier == "quick" else 3))
+    # declared cyclic molecules: the closing restraint produces natural failures on top of the injected ones
+    for typ in ("RING4",) if tier == "quick" else ("RING4", "RING6"):
+        out.append(dict(types=[typ], molecules=[(typ, 1)], box=[4.0, 4.0, 4.0], grid=GRID,
+                        kwargs=dict(nrewind=2, maxiter=2, cycles=[typ], cycle_tol=0.3), F=2))
     if tier == "thorough":
         for typ in ("RING4", "RING6", "CH5"):
             for nrewind in (1, 2, 3, 5):
